@@ -69,3 +69,73 @@ func schedPart(r *runner.Run, t *testing.T) {
 		}
 	}
 }
+
+// Pull-API level: two workers present the SAME lease at the same time (a client retry overlapping its original) while
+// the clock may pass the lease expiry in between. An acknowledged ack/nack must have taken effect: if any of the two
+// calls answered 204, the message must be settled accordingly at the end (acked: gone; dead-lettered: dead); the
+// idempotent duplicate answer is only legal for an operation that itself already succeeded.
+func pullDuplicates(r *runner.Run, t *testing.T) {
+	for _, kind := range []string{"ack", "nackdead"} {
+		kind := kind
+		dir := filepath.Join(runner.Scratch(), "c04dup")
+		body := func(x *sched.Exec) {
+			w, err := boot("memory", dir)
+			if err != nil {
+				x.Err = err
+				return
+			}
+			ho := w.do(op{Kind: "deq", Batch: 1})
+			if len(ho.Obs.Items) != 1 {
+				x.Err = fmt.Errorf("setup dequeue returned %d items", len(ho.Obs.Items))
+				w.a.Shutdown()
+				return
+			}
+			lease := ho.Obs.Items[0].Lease
+			id := ho.Obs.Items[0].ID
+			for i := 0; i < 2; i++ {
+				x.Go(fmt.Sprintf("w%d", i), func() {
+					h := w.do(op{Kind: kind, Lease: lease})
+					x.Logf("status=%d", h.Code)
+				})
+			}
+			x.Go("clock", func() { x.Advance(ttl) })
+			x.Run()
+			x.Finish()
+			state := "gone"
+			for _, m := range w.listing() {
+				if m.ID == id {
+					state = m.State
+				}
+			}
+			x.Logf("final=%s", state)
+			w.a.Shutdown()
+		}
+		oracle := func(x *sched.Exec) {
+			ok := 0
+			final := ""
+			for _, l := range x.Log {
+				switch {
+				case l == "status=204":
+					ok++
+				case l == "status=409":
+				case len(l) > 6 && l[:6] == "final=":
+					final = l[6:]
+				default:
+					sched.Failf("unexpected answer %s", l)
+				}
+			}
+			want := "gone"
+			if kind == "nackdead" {
+				want = "dead"
+			}
+			if ok > 0 && final != want {
+				sched.Failf("%s of lease answered 204 to %d caller(s) but the message is %q at the end (want %s): an acknowledged settlement did not take effect", kind, ok, final, want)
+			}
+			if ok == 0 && final == want {
+				sched.Failf("message is %s although no caller was told so", final)
+			}
+		}
+		schedrun.Run(r, t, schedrun.Spec{Name: "pull-duplicate-" + kind, Bound: runner.Pick(r, 3, -1), Shards: 8, Budget: runner.Pick(r, 15*time.Second, 3*time.Minute), Body: body, Oracle: oracle,
+			VioKey: func(f *sched.Failure) string { return "overlapping-duplicate:" + kind }})
+	}
+}
